@@ -137,9 +137,12 @@ func discText(name string) string {
 
 // PricingText is an arbitrary pricing text accepted by the pricing JSON schema with
 // nT time promotions and nV volume promotions and an integer base-denom price.
-func PricingText(name string, nT, nV int) string {
+func PricingText(name string, nT, nV int) string { return PricingTextIn(name, "stake", nT, nV) }
+
+// PricingTextIn is PricingText with the price in the given denomination.
+func PricingTextIn(name, denom string, nT, nV int) string {
 	var sb strings.Builder
-	fmt.Fprintf(&sb, `{"price":"%sstake"`, intOf(name+".price").String())
+	fmt.Fprintf(&sb, `{"price":"%s%s"`, intOf(name+".price").String(), denom)
 	if nT > 0 {
 		sb.WriteString(`,"promotions_by_time":[`)
 		for i := 0; i < nT; i++ {
@@ -250,8 +253,18 @@ func paramInt(name string, def int64) int64 {
 
 // Env boots the real application; module parameters take the values of the model
 // (any legal parameter set), defaults where the model left them unconstrained.
-func Env() (keeper.Keeper, sdk.Context) {
+func Env() (keeper.Keeper, sdk.Context) { return env(nil) }
+
+// EnvWith is Env with the service keeper built (by the real constructor) over the token keeper of the host
+// application, which the harness supplies: the repository's own application knows a single token.
+func EnvWith(tk types.TokenKeeper) (keeper.Keeper, sdk.Context) { return env(tk) }
+
+func env(tk types.TokenKeeper) (keeper.Keeper, sdk.Context) {
 	App = simapp.Setup(false)
+	if tk != nil {
+		App.ServiceKeeper = keeper.NewKeeper(App.AppCodec(), App.GetKey(types.StoreKey), App.AccountKeeper, App.BankKeeper,
+			tk, App.GetSubspace(types.ModuleName), authtypes.FeeCollectorName)
+	}
 	ctx := App.BaseApp.NewContext(false, tmproto.Header{Height: 1})
 	p := types.DefaultParams()
 	p.MaxRequestTimeout = paramInt("param.MaxRequestTimeout", p.MaxRequestTimeout)
